@@ -212,11 +212,11 @@ func UpdateRef(sp interface{}, key string, ref spec.Ref) error {
 	case *spec.Schema:
 		refable.Ref = ref
 	case *spec.SchemaOrArray:
-		if refable.Schema != nil {
+		if refable != nil && refable.Schema != nil {
 			refable.Schema.Ref = ref
 		}
 	case *spec.SchemaOrBool:
-		if refable.Schema != nil {
+		if refable != nil && refable.Schema != nil {
 			refable.Schema.Ref = ref
 		}
 	case spec.Schema:
@@ -311,9 +311,16 @@ func UpdateRefWithSchema(sp *spec.Swagger, key string, sch *spec.Schema) error {
 			return ErrUnhandledParentType(key, value)
 		}
 	case *spec.SchemaOrArray:
+		if refable == nil || refable.Schema == nil {
+			// stale key: the holder has been moved or is a tuple
+			return ErrNoSchemaWithRef(key, value)
+		}
 		*refable.Schema = *sch
 	// NOTE: can't have case *spec.SchemaOrBool = parent in this case is *Schema
 	case *spec.SchemaOrBool:
+		if refable == nil || refable.Schema == nil {
+			return ErrNoSchemaWithRef(key, value)
+		}
 		*refable.Schema = *sch
 	default:
 		return ErrNoSchemaWithRef(key, value)
